@@ -11,6 +11,7 @@
    ANN:  K            rejected with class K whatever the options
        | (u NK K)     uses an undeclared name, NK = acct | comm | tag | payee
        | (b K)        a balance assertion that is off
+       | (uc POS K)   an undeclared commodity as POS = cost | lotprice | assigned
    (status N) -> "status N S" with S the exit status the parent sees for an error count of N *)
 let nk_of = function
   | "acct" -> NAccount | "comm" -> NCommodity | "tag" -> NTag | "payee" -> NPayee
@@ -20,6 +21,9 @@ let ann_of = function
   | A k -> AThrow (z_of_string k)
   | L [A "u"; A nk; A k] -> AUnknown (nk_of nk, z_of_string k)
   | L [A "b"; A k] -> ABalAssert (z_of_string k)
+  | L [A "uc"; A pos; A k] ->
+    AUnknownAt ((match pos with "cost" -> PCost | "lotprice" -> PLotPrice | "assigned" -> PAssigned
+                                | _ -> failwith "position"), z_of_string k)
   | _ -> failwith "ann"
 
 let rec line_of = function
